@@ -1095,9 +1095,49 @@ func (ex *Exec) applyContract(st *State, cfi *FuncInfo, cfc *FuncContract, recv 
 	if cfc.Trusted {
 		ex.assumedCalls[cfi.Key] = true
 	}
+	if cfi != ex.fi && ex.fi != nil && ex.w.sameSCC(cfi, ex.fi) {
+		// mutual recursion (static call cycle): the callee's measure at the call must be lexicographically below the
+		// caller's measure at entry; every function on the cycle needs a `decreases` clause
+		if len(cfc.DecLex) > 0 && ex.fc != nil && len(ex.fc.DecLex) > 0 {
+			eenv := ex.specEnv(ex.entry, nil)
+			var m1, m0 []*Term
+			for _, d := range cfc.DecLex {
+				m1 = append(m1, ex.w.trSpec(d, env).T)
+			}
+			for _, d := range ex.fc.DecLex {
+				m0 = append(m0, ex.w.trSpec(d, eenv).T)
+			}
+			for len(m1) < len(m0) {
+				m1 = append(m1, intLit(0))
+			}
+			for len(m0) < len(m1) {
+				m0 = append(m0, intLit(0))
+			}
+			goal := lexLess(m1, m0)
+			for _, t := range m1 {
+				goal = tAnd(goal, mk("<=", SBool, intLit(0), t))
+			}
+			ex.oblige(st, "dec", fmt.Sprintf("dec.rec.call%d", cn), goal, where+": call on a recursion cycle decreases the lexicographic measure of "+cfi.Key+" below that of "+ex.fi.Key)
+		} else {
+			o := ex.oblige(st, "dec", fmt.Sprintf("dec.rec.call%d", cn), tFalse, where+": "+cfi.Key+" and "+ex.fi.Key+" are mutually recursive: both need a decreases clause")
+			o.Static = "no decreases clause on a recursion cycle"
+		}
+	}
 	if cfi == ex.fi {
 		// recursive call: the measure must be non-negative and strictly smaller than at entry
-		if cfc.Decreases != nil {
+		if len(cfc.DecLex) > 1 {
+			eenv := ex.specEnv(ex.entry, nil)
+			var m1, m0 []*Term
+			for _, d := range cfc.DecLex {
+				m1 = append(m1, ex.w.trSpec(d, env).T)
+				m0 = append(m0, ex.w.trSpec(d, eenv).T)
+			}
+			goal := lexLess(m1, m0)
+			for _, t := range m1 {
+				goal = tAnd(goal, mk("<=", SBool, intLit(0), t))
+			}
+			ex.oblige(st, "dec", fmt.Sprintf("dec.rec.call%d", cn), goal, where+": recursive call decreases the lexicographic measure")
+		} else if cfc.Decreases != nil {
 			m1 := ex.w.trSpec(cfc.Decreases, env).T
 			eenv := ex.specEnv(ex.entry, nil)
 			m0 := ex.w.trSpec(cfc.Decreases, eenv).T
@@ -1701,4 +1741,16 @@ func exactDomTerm(t *Term) *Term {
 		return tAnd(fs...)
 	}
 	return tTrue
+}
+
+// lexLess: a < b in the lexicographic order (same length).
+func lexLess(a, b []*Term) *Term {
+	if len(a) == 0 {
+		return tFalse
+	}
+	head := mk("<", SBool, a[0], b[0])
+	if len(a) == 1 {
+		return head
+	}
+	return tOr(head, tAnd(tEq(a[0], b[0]), lexLess(a[1:], b[1:])))
 }
